@@ -56,18 +56,30 @@ class History(metaclass=ABCMeta):
         were were appended to the history will be incorporated next time this
         method is called.
         """
-        if not self._loaded:
-            self._loaded_strings = list(self.load_history_strings())
-            self._loaded = True
+        self._ensure_loaded()
 
         for item in self._loaded_strings:
             yield item
 
+    def _ensure_loaded(self) -> None:
+        """
+        Read the stored history, if that did not happen yet. (Strings that
+        were appended before are stored already, so they are read back.)
+        """
+        if not self._loaded:
+            self._loaded_strings = list(self.load_history_strings())
+            self._loaded = True
+
     def get_strings(self) -> list[str]:
         """
-        Get the strings from the history that are loaded so far.
-        (In order. Oldest item first.)
+        Get the strings from the history. (In order. Oldest item first.)
+
+        The history is loaded first if needed: `Buffer.append_to_history`
+        compares the accepted input with the last string returned here, and
+        input can be accepted before `load()` was consumed (type-ahead is
+        processed before the first render).
         """
+        self._ensure_loaded()
         return self._loaded_strings[::-1]
 
     def append_string(self, string: str) -> None:
@@ -179,6 +191,11 @@ class ThreadedHistory(History):
                     break
         finally:
             self._string_load_events.remove(event)
+
+    def _ensure_loaded(self) -> None:
+        # Loading happens in the load thread only. `get_strings` returns what
+        # is loaded so far.
+        pass
 
     def _in_load_thread(self) -> None:
         try:
